@@ -13,7 +13,7 @@ use crate::engine::{pick_idx, CaseCtx, CheckResult, Ctx, Tier};
 use crate::gen::*;
 use crate::model::time::{render, Instant, TsStyle};
 use crate::model::verify::Carrier;
-use crate::props::{self, c01, c02, c08, c09, c10, c11, c12, c16, c19};
+use crate::props::{self, c01, c02, c03, c04, c05, c08, c09, c10, c11, c12, c15, c16, c19};
 use crate::types::*;
 use serde::Serialize;
 use std::sync::OnceLock;
@@ -373,6 +373,84 @@ pub fn one(data: &[u8]) {
             let case = c12::FoldCase { plan, client_folds: c.bool(), server_folds: c.bool(), raw_body, flip };
             let r = c12::check_fold(&case, &mut cc);
             settle(st, "fold", &case, r);
+        }
+        "C03" => {
+            let plan = decode_plan(&mut c);
+            let n = [4usize, 4, 4, 3, 5, 0, 1, 7][c.pick(8)];
+            let pool: [String; 8] = [plan.instant.date8(), plan.cfg.region.clone(), plan.cfg.service.clone(), "aws4_request".into(), String::new(), "us-east-1".into(), plan.cfg.now.date8(), "aws4_request ".into()];
+            let mut parts: Vec<String> = Vec::new();
+            for i in 0..n {
+                let mut v = if c.pick(3) == 0 { pool[c.pick(8)].clone() } else { pool[i.min(3)].clone() };
+                match c.pick(6) {
+                    0 => {
+                        v.pop();
+                    }
+                    1 => v.push((b'a' + c.u8() % 26) as char),
+                    2 => v = v.to_ascii_uppercase(),
+                    3 => v.insert(0, ' '),
+                    _ => {}
+                }
+                parts.push(v);
+            }
+            let case = c03::ScopeCase { plan, parts, provider_follows_credential: c.bool() };
+            let r = c03::check_scope(&case, &mut cc);
+            settle(st, "scope-e2e", &case, r);
+        }
+        "C04" => {
+            let mut plan = decode_plan(&mut c);
+            const W: i128 = 900_000_000_000;
+            let delta: i128 = match c.pick(5) {
+                0 => W + (c.u16() as i128 - 32768) * 100_000,
+                1 => -W + (c.u16() as i128 - 32768) * 100_000,
+                2 => (c.u16() as i128 - 32768) * 40_000_000,
+                3 => [W, -W, W + 1, -W - 1, W - 1, -W + 1][c.pick(6)],
+                _ => (c.u16() as i128 - 32768) * 1_000_000_000,
+            };
+            plan.cfg.now = plan.instant.add_nanos(-delta);
+            if (1..=9999).contains(&plan.cfg.now.year()) {
+                let case = c04::WindowCase { plan, delta };
+                let r = c04::check_window(&case, &mut cc);
+                settle(st, "random", &case, r);
+            }
+        }
+        "C05" => {
+            let mut plan = decode_plan(&mut c);
+            const N: &[&str] = &["content-type", "etag", "x-amz-meta-a", "x-custom", "accept", "x-a"];
+            const P: &[&str] = &["x-amz-meta-", "x-amz-", "x-custom", "x-", "my-header", "e"];
+            let mut reqs = Reqs { route: c.u8() % 3, ..Reqs::default() };
+            for _ in 0..c.pick(3) {
+                reqs.always.push(spell_header_name(N[c.pick(N.len())], c.u8()));
+            }
+            for _ in 0..c.pick(3) {
+                reqs.if_in_request.push(spell_header_name(N[c.pick(N.len())], c.u8()));
+            }
+            for _ in 0..c.pick(3) {
+                reqs.prefixes.push(spell_header_name(P[c.pick(P.len())], c.u8()));
+            }
+            plan.cfg.reqs = reqs;
+            // sign everything present, then drop generated entries
+            let mut signed: Vec<String> = plan.logical.headers.iter().map(|(n, _)| n.clone()).collect();
+            if plan.spec.carrier == Carrier::Header {
+                signed.push("x-amz-date".into());
+                if plan.spec.token.is_some() {
+                    signed.push("x-amz-security-token".into());
+                }
+            }
+            signed.sort();
+            signed.dedup();
+            plan.spec.signed_headers = signed;
+            let drop = (0..c.pick(3)).map(|_| c.u16()).collect();
+            let case = c05::ReqCase { plan, drop, remove_from_request: c.bool() };
+            let r = c05::check_reqs(&case, &mut cc);
+            settle(st, "requirements-e2e", &case, r);
+        }
+        "C15" => {
+            let mut plan = decode_plan(&mut c);
+            if c.bool() {
+                plan.entry.session = vec![("k".into(), ["@null", "true", "12", "v", ""][c.pick(5)].to_string())];
+            }
+            let r = c15::check_roundtrip(&plan, &mut cc);
+            settle(st, "roundtrip", &plan, r);
         }
         "C19" => {
             let plan = decode_plan(&mut c);
